@@ -8,6 +8,8 @@
 -/
 import PypyrModel.Fmt
 import PypyrModel.FmtHeap
+import PypyrModel.FmtRoute
+import Generated.FmtLadder
 import Props.Lemmas.C09_Tree
 import Props.Lemmas.C09_Heap
 import Props.Lemmas.C09_Sim
@@ -869,5 +871,95 @@ example :
         | some (Cell.list 0 [0, 1]), some (Cell.list 0 [5, 5, 1]) => true
         | _, _ => false)
      | .error _ => false) = true := by decide +kernel
+
+/-! ## The classifier: which `isinstance` answer routes to which branch (PypyrModel/FmtRoute.lean) -/
+
+open Pypyr.FmtRoute in
+/-- **ladder_is_assumed** — the STATIC TIE (`Generated/FmtLadder.lean`, written by ast from pypyr/formatting.py
+    of the tree under test on every run): the if / elif chain of `_get_formatted_iterable` tests, in this order,
+    passthrough types, special types, str, bytes / bytearray, Mapping, Sequence-or-Set, each rung's body is the
+    single statement the model assumes (the str rung hands the WHOLE string to `_format_keep_type`: no shortcut
+    in front of it), the else returns the object, and Mapping / Sequence / Set are the collections.abc classes. -/
+theorem ladder_is_assumed :
+    Pypyr.Generated.FmtLadder.ladder = ladderAssumed ∧
+    Pypyr.Generated.FmtLadder.elseBody = elseAssumed ∧
+    Pypyr.Generated.FmtLadder.origins = originsAssumed := by
+  decide
+
+open Pypyr.FmtRoute in
+/-- **route_reads_source_ladder** — the routing table `route` IS the extracted ladder read top to bottom:
+    for every combination of `isinstance` answers. -/
+theorem route_reads_source_ladder (t : Tags) :
+    routeBy Pypyr.Generated.FmtLadder.elseBody t Pypyr.Generated.FmtLadder.ladder = some (route t) := by
+  rw [ladder_is_assumed.1, ladder_is_assumed.2.1]
+  obtain ⟨a, b, c, d, e, f, g⟩ := t
+  cases a <;> cases b <;> cases c <;> cases d <;> cases e <;> cases f <;> cases g <;> decide
+
+open Pypyr.FmtRoute in
+/-- **route_leaf_iff** — an object is a leaf (returned as the identical object, `return obj`) exactly when
+    every `isinstance` test of the ladder says no. -/
+theorem route_leaf_iff (t : Tags) :
+    route t = .leaf ↔ t = {} := by
+  obtain ⟨a, b, c, d, e, f, g⟩ := t
+  cases a <;> cases b <;> cases c <;> cases d <;> cases e <;> cases f <;> cases g <;> decide
+
+open Pypyr.FmtRoute in
+/-- **route_ignores_attrs** — what an object's class DEFINES (`__len__`, `__iter__`, `__contains__`,
+    `__getitem__`, `keys`) is no input of the routing: two objects with the same `isinstance` answers take the
+    same branch; in particular an object none of the tests matches is a leaf whatever it defines. -/
+theorem route_ignores_attrs (o₁ o₂ : Obj) (h : o₁.tags = o₂.tags) : routeObj o₁ = routeObj o₂ := by
+  simp [routeObj, h]
+
+open Pypyr.FmtRoute in
+theorem almost_container_is_leaf (a : Attrs) : routeObj ⟨{}, a⟩ = .leaf := rfl
+
+open Pypyr.FmtRoute in
+/-- **collection_hook_counter_model** — the COUNTER-MODEL (not pypyr) with the structural
+    `collections.abc.Collection` in place of Sequence-or-Set takes an object that merely defines `__len__`,
+    `__iter__`, `__contains__` for a container; it agrees with `route` on every object that does not define all
+    three (which is why only such objects tell the two apart). -/
+theorem collection_hook_counter_model :
+    (∃ o, routeObj o = .leaf ∧ routeCollection o = .iterable) ∧
+    (∀ o : Obj, (o.attrs.len && o.attrs.iter && o.attrs.contains) = false → routeCollection o = routeObj o) := by
+  refine ⟨⟨⟨{}, { len := true, iter := true, contains := true }⟩, rfl, rfl⟩, ?_⟩
+  intro o h
+  simp [routeCollection, routeObj, route, h]
+
+open Pypyr.FmtRoute in
+/-- **fmtH_leaf_route** — the heap model follows the classifier at a leaf: a cell whose tags route to `leaf` or
+    to the bytes rung comes back as the SAME reference with heap and memo untouched (no constructor call, no
+    write), for every fuel, context and state. -/
+theorem fmtH_leaf_route (fuel : Nat) (ctx : HCtx) (isRec : Bool) (r : Ref) (st : St) (c : Cell)
+    (hc : st.heap[r]? = some c) (hm : memoHit st r = none)
+    (hr : route (cellTags c) = .leaf ∨ route (cellTags c) = .bytesLeaf) :
+    fmtH (fuel + 1) ctx isRec r st = .ok (r, st) := by
+  cases c with
+  | leaf v => simp [fmtH, hm, hc]
+  | mbytes b => simp [fmtH, hm, hc]
+  | str s => simp [cellTags, route] at hr
+  | list t rs => simp [cellTags, route] at hr
+  | tuple t rs => simp [cellTags, route] at hr
+  | dict t kvs => simp [cellTags, route] at hr
+  | set t rs => simp [cellTags, route] at hr
+  | sic p => simp [cellTags, route] at hr
+  | pyName n => simp [cellTags, route] at hr
+  | jsonify p => simp [cellTags, route] at hr
+
+open Pypyr.FmtRoute in
+/-- … and every container / string / special cell is routed to the branch `fmtH` has for it. -/
+theorem cell_routes :
+    (∀ s, route (cellTags (.str s)) = .format) ∧
+    (∀ t rs, route (cellTags (.list t rs)) = .iterable) ∧ (∀ t rs, route (cellTags (.tuple t rs)) = .iterable) ∧
+    (∀ t rs, route (cellTags (.set t rs)) = .iterable) ∧ (∀ t kvs, route (cellTags (.dict t kvs)) = .mapping) ∧
+    (∀ p, route (cellTags (.sic p)) = .special) ∧ (∀ n, route (cellTags (.pyName n)) = .special) ∧
+    (∀ p, route (cellTags (.jsonify p)) = .special) ∧ (∀ i, route (cellTags (.leaf (.obj i))) = .leaf) ∧
+    (∀ b, route (cellTags (.leaf (.bytes b))) = .bytesLeaf) ∧ (∀ b, route (cellTags (.mbytes b)) = .bytesLeaf) := by
+  refine ⟨?_, ?_, ?_, ?_, ?_, ?_, ?_, ?_, ?_, ?_, ?_⟩ <;> intros <;> rfl
+
+/-- A `Basket`-like object (sized, iterable, supports `in`; registered nowhere) is a leaf; a registered virtual
+    Sequence is a container; a str subclass is formatted. -/
+example : FmtRoute.routeObj ⟨{}, { len := true, iter := true, contains := true, getitem := true }⟩ = .leaf ∧
+    FmtRoute.route { sequence := true } = .iterable ∧ FmtRoute.route { str := true, sequence := true } = .format := by
+  decide
 
 end Pypyr.C09
